@@ -347,8 +347,10 @@ func FilterPMTPacketsToPids(packets []*packet.Packet, pids []int) ([]*packet.Pac
 
 	// include +1 to account for the PointerField field itself
 	pointerField := int(PointerField(pmtPayload)) + 1
-	if len(pmtPayload) < pointerField+int(programInfoLengthOffset)+2 {
-		// there is no program map section behind the pointer_field
+	if len(pmtPayload) < pointerField+int(programInfoLengthOffset)+2 ||
+		tableID(pmtPayload[pointerField:]) != 0x2 ||
+		len(pmtPayload) < pointerField+3+int(sectionLength(pmtPayload[pointerField:])) {
+		// what follows the pointer_field is not a complete program map section
 		return nil, gots.ErrPMTParse
 	}
 
